@@ -13,6 +13,41 @@ from . import rules_orient as OR
 from . import rules_more as M
 from . import rules_more2 as M2
 from . import rules_more3 as M3, rules_more4 as M4, rules_more5 as M5
+from .core import AnalysisError
+
+
+class _Safe:
+    """A rule module whose rules do not take the whole check down when the
+    function they are anchored in has gone (renamed, turned into a class,
+    moved under another name): that rule then says UNDECIDED - anchor
+    vanished, the other rules of the property still decide what they can.
+    Nothing is decided by name guessing."""
+
+    def __init__(self, mod):
+        self._mod = mod
+
+    def __getattr__(self, name):
+        f = getattr(self._mod, name)
+        if not callable(f) or isinstance(f, type):
+            return f
+        label = "%s.%s" % (self._mod.__name__.rsplit(".", 1)[-1], name)
+
+        def wrapped(repo, col, *a, **k):
+            try:
+                return f(repo, col, *a, **k)
+            except AnalysisError as exc:
+                if "anchor vanished" not in str(exc):
+                    raise
+                col.add("E-ANCHOR", label, str(exc)[:120], True,
+                        "the rule %s is anchored in code that no longer "
+                        "exists under that name: it decides nothing on this "
+                        "tree" % label, undecided=True)
+                return None
+        return wrapped
+
+
+A, B, D, X, O, SB, SP, S, T, OR, M, M2, M3, M4, M5 = (
+    _Safe(m_) for m_ in (A, B, D, X, O, SB, SP, S, T, OR, M, M2, M3, M4, M5))
 
 
 class Spec:
@@ -268,6 +303,9 @@ def c04(repo, col):
     O.flush_chain(repo, col)
     M4.minishard_final_before_use(repo, col)
     M4.lowercase_hex_names(repo, col)
+    M5.gzip_framing(repo, col)
+    M5.index_bytes_use_index_codec(repo, col)
+    M5.measured_is_written(repo, col)
     M3.payload_reaches_storage(repo, col, only=["sharded_file_accessor", "sharded_base"])
     SP.sharded_layout(repo, col)
     SP.routing_bits(repo, col)
@@ -302,6 +340,8 @@ def c04(repo, col):
        "byte array"])
 def c05(repo, col):
     M4.minishard_final_before_use(repo, col)
+    M5.index_bytes_use_index_codec(repo, col)
+    M5.measured_is_written(repo, col)
     M3.seek_before_read(repo, col)
     M4.legacy_seek_rebased(repo, col)
     M3.payload_reaches_storage(repo, col, only=["sharded_file_accessor", "sharded_base"])
@@ -499,6 +539,8 @@ def c11(repo, col):
        "chunk-name patterns are axis-consistent; options reach FileAccessor"],
       ["last-write-wins over operation histories", "gzip stream validity"])
 def c12(repo, col):
+    M5.store_creates_parents(repo, col)
+    M5.percent_decoding_only_for_file_urls(repo, col)
     M4.delete_guard_excludes_open(repo, col)
     M3.chunk_name_component_order(repo, col)
     M3.payload_reaches_storage(repo, col, only=["file_accessor"])
@@ -550,6 +592,8 @@ def c13(repo, col):
     S.copy_keyword_contract(repo, col)
     O.flush_chain(repo, col)
     O.minishard_drain(repo, col)
+    M5.index_bytes_use_index_codec(repo, col)
+    M5.measured_is_written(repo, col)
     O.exit_order(repo, col)
     M.copy_info_handling(repo, col)
     M2.loop_error_discipline(repo, col)
